@@ -126,6 +126,7 @@ class PathManager:
         self.side: list = []  # definitional side conditions (sqrt, uninterpreted axioms)
         self._fresh = 0
         self.sqrt_memo = {}
+        self.decided = {}
         self.solver = z3.Solver()
         self.solver.set("timeout", self.timeout_ms)
         for c in self.pc:
@@ -147,6 +148,9 @@ class PathManager:
             return True
         if z3.is_false(cond):
             return False
+        key = cond.get_id()
+        if key in self.decided:  # the same condition was already decided on this path
+            return self.decided[key][0]
         idx = len(self.decisions)
         if idx < len(self.prefix):
             taken = self.prefix[idx]
@@ -164,6 +168,7 @@ class PathManager:
             else:
                 raise Abort("infeasible path")
         self.decisions.append(taken)
+        self.decided[key] = (taken, cond)
         c = cond if taken else z3.Not(cond)
         self.pc.append(c)
         self.solver.add(c)
